@@ -291,4 +291,9 @@ theorem problem_validators_code_eq_model :
     (∀ c, Gen.pvalidate_Hendrix c = validateHendrix c) ∧ (∀ c, Gen.pvalidate_Mirjalili c = validateMirjalili c) :=
   ⟨GenTie.pvalidate_forest_eq, GenTie.pvalidate_demoor_eq, GenTie.pvalidate_hendrix_eq, GenTie.pvalidate_mirjalili_eq⟩
 
+/-- **tie by translation, verbosity**: `verbosity_to_loguru_level` as written in /repo is the model's `loguruLevel`, so
+    `loguruLevel_ok_iff` and `levelName_injective` are statements about the code's table -/
+theorem verbosity_code_eq_model (isInt : Bool) (v : Int) : Gen.loguruLevel isInt v = loguruLevel isInt v :=
+  GenTie.loguruLevel_eq isInt v
+
 end MdpaxV.C20
